@@ -1115,6 +1115,54 @@ theorem view_coherent (shape : List Int) (bs bs' : Shape) (names nm' : Names) (c
   shape_op_coherent_all.1 _ bs names es bs' nm' call h (goodCall_of_meta_view true shape bs bs' names nm' call hprod h)
     (by intro d sz hne; cases hne) hc
 
+
+
+/-- torch.stack on leaves commutes with the batch view: stacking the leaves along a batch dim is stacking their batch views
+(every operand of shape `s`, `dim ≤ n ≤ rank`) -/
+theorem stack_leaf_commutes [Inhabited α] (ts : List (T α)) (s : Shape) (n dim : Nat)
+    (hs : ∀ t ∈ ts, t.shape = s) (hne : ts ≠ []) (hn : n ≤ s.length) (hd : dim ≤ n) :
+    asBatch (n + 1) (T.stack ts dim) ≈ₜₜ T.stack (ts.map (asBatch n)) dim := by
+  obtain ⟨t0, rest, rfl⟩ := List.exists_cons_of_ne_nil hne
+  have h0 : t0.shape = s := hs t0 (by simp)
+  have hL : (T.stack (t0 :: rest) dim).shape = s.insertIdx dim (rest.length + 1) := by simp [T.stack, h0]
+  have hR : (T.stack ((t0 :: rest).map (asBatch n)) dim).shape = (s.take n).insertIdx dim (rest.length + 1) := by
+    simp [T.stack, asBatch, h0]
+  apply asBatch_eqv2
+  · rw [hL, hR]; exact insertIdx_take s dim n _ hd hn
+  · intro c hc
+    have hc' : InB c ((s.take n).insertIdx dim (rest.length + 1)) := by
+      rw [hL, insertIdx_take s dim n _ hd hn] at hc; exact hc
+    have hcl : c.length = n + 1 := by
+      have := InB.length_eq hc'
+      rw [List.length_insertIdx_of_le_length (by simp; omega)] at this
+      simp at this; omega
+    -- the stack index is in range
+    have hidx : c.getD dim 0 < rest.length + 1 := by
+      have := InB.getD_lt hc' dim (by rw [List.length_insertIdx_of_le_length (by simp; omega)]; simp; omega)
+      have hdl : dim ≤ (s.take n).length := by simp; omega
+      have hg : ((s.take n).insertIdx dim (rest.length + 1)).getD dim 0 = rest.length + 1 := by
+        rw [List.getD_eq_getElem?_getD, List.getElem?_insertIdx_self, if_pos hdl]; rfl
+      rw [hg] at this; exact this
+    have hget : (c ++ ([] : List Nat)).getD dim 0 = c.getD dim 0 := by simp
+    obtain ⟨ti, hti⟩ : ∃ ti, (t0 :: rest)[c.getD dim 0]? = some ti := by
+      rw [List.getElem?_eq_getElem (by simpa using hidx)]; exact ⟨_, rfl⟩
+    have htis : ti.shape = s := hs ti (List.mem_of_getElem? hti)
+    have hRget : (T.stack ((t0 :: rest).map (asBatch n)) dim).get c = (asBatch n ti).get (c.eraseIdx dim) := by
+      simp only [T.stack]
+      rw [List.getElem?_map, hti]; rfl
+    refine ⟨?_, ?_⟩
+    · rw [hL, hRget]
+      simp only [asBatch, htis]
+      exact insertIdx_drop s dim n _ hd hn
+    · intro f _
+      rw [hRget]
+      simp only [T.stack, asBatch]
+      have e1 : (c ++ f).getD dim 0 = c.getD dim 0 := by
+        simp [List.getD_eq_getElem?_getD, List.getElem?_append_left (show dim < c.length by omega)]
+      have e2 : (c ++ f).eraseIdx dim = c.eraseIdx dim ++ f := List.eraseIdx_append_of_lt_length (by omega) f
+      rw [e1, e2, hti]; rfl
+
+
 /-! ## non-vacuity: the hypotheses are satisfiable by concrete, non-trivial values, and the models compute -/
 
 example : [1, 0].Perm (List.range 2) := by decide
